@@ -12,14 +12,42 @@ PROPS = {
         "not_covered": ["centered_differences.py", "complex_step.py", "derivatives_approx.py", "parallel gradient", "float cancellation error"],
     },
     "C02": {
-        "level_text": "Proof of the representation invariant of DesignSpace over its mutators.",
-        "level_note": "see evidence",
+        "level_text": "Proof (all histories by invariant preservation, all sizes/values symbolically) that remove_variable, rename_variable, set_lower/upper_bound, "
+                      "set_current_variable and their helpers preserve the representation invariant of DesignSpace (one variable order for variables, normalisation "
+                      "policies and index ranges; adjacent index ranges summing to the dimension; cached normalisation data dropped), and that normalize_vect / "
+                      "unnormalize_vect / round_vect compute the affine maps component-wise for every vector; bijection, unit-interval and gradient-scaling "
+                      "identities as real-arithmetic lemmas over those postconditions.",
+        "level_note": "Trusted: pyvc with its ordered-dict model, numpy model (npmodel.py), z3, reals for floats; pydantic's Variable is a modelled record. "
+                      "Not covered: add_variable/filter/filter_dimensions/extend/set_current_value, get_current_value, conversions dict<->array, check_membership, "
+                      "project_into_bounds, complex dtype, file I/O; integer rounding inside unnormalize_vect (precondition: no integer variable).",
+        "design_ref": "DESIGN.md §4 C02",
+        "not_covered": ["add_variable", "filter", "filter_dimensions", "extend", "set_current_value", "get_current_value", "convert_array_to_dict/convert_dict_to_array",
+                        "check_membership", "project_into_bounds", "unnormalize_vect with integer variables"],
         "modules": ["contracts.c02_design_space", "contracts.c02_normalization"],
     },
-    "C03": {
-        "level_text": "Proof of the budget mechanism on gemseo's side of the algorithm/problem interface.",
-        "level_note": "see evidence",
+    "C01": {
+        "level_text": "Proof, function by function and for all inputs, of the database lookup / compute / store protocol of ProblemFunction: a recorded point is "
+                      "served from the database without calling the user's callables (ghost call log unchanged), a miss returns what the evaluation "
+                      "sequence computes and records exactly that value (the unnormalised Jacobian in the normalised case) under the physical point, "
+                      "every other database entry untouched; Database.store / get_function_value as whole-map postconditions.",
+        "level_note": "Trusted: pyvc, z3; arrays are opaque contents (HashableNdarray equality = content equality, byte-level caveats such as -0.0/dtype ignored); "
+                      "the user's callables are deterministic uninterpreted functions; unnormalize_vect/normalize_grad/unnormalize_grad are uninterpreted here "
+                      "(their arithmetic is proved under C02). Not covered: _preprocess_function (composition of the sequences), sparse Jacobians, tolerance lookup.",
+        "design_ref": "DESIGN.md §4 C01",
         "modules": ["contracts.c01_c03_evaluation"],
+        "not_covered": ["EvaluationProblem._preprocess_function", "MDOLinearFunction.normalize", "sparse Jacobian branches", "Database tolerance > 0 lookup"],
+    },
+    "C03": {
+        "level_text": "Proof of the evaluation-budget mechanism on gemseo's side of the algorithm/problem interface, hence for every algorithm: each "
+                      "database-assisted evaluation creates at most one new non-empty entry and only while the counter is below its maximum "
+                      "(MaxIterReachedException is raised before the user's callable is invoked otherwise); Database.store notifies the new-iteration "
+                      "listeners exactly when a new non-empty entry appears; the driver callback adds exactly one to the counter per notification; "
+                      "the budget invariant and its corollary 'at most N new entries' are then SMT lemmas over these contracts.",
+        "level_note": "Trusted: pyvc, z3; opaque arrays; listeners are opaque callables logged in a ghost call log (their effect on the counter is linked by the lemma, "
+                      "not by store's frame). Not covered: BaseDriverLibrary.execute (settings plumbing, try/except -> result), stop criteria, DOE loop, third-party optimisers.",
+        "design_ref": "DESIGN.md §4 C03",
+        "modules": ["contracts.c01_c03_evaluation"],
+        "not_covered": ["BaseDriverLibrary.execute", "stop_criteria.py", "BaseDOELibrary._run", "use_database=False"],
     },
     "C05": {
         "level_text": "Proof (function by function, all inputs, unbounded) that SimpleCache operations implement a one-entry map from input content to "
